@@ -48,7 +48,10 @@ void CDNS::GzipCborOutputWriter::close()
 
 int CDNS::GzipCborOutputWriter::write_gzip(std::size_t in_size, int action)
 {
-    std::size_t size = in_size + in_size / 3 + 128;
+    // The callers loop until all input is consumed or the stream is finished, so a fixed-size chunk
+    // is enough (a stack buffer sized by in_size overflowed the stack for large writes)
+    (void) in_size;
+    constexpr std::size_t size = 16384;
     uint8_t buff[size];
 
     // Set output buffer
@@ -101,7 +104,10 @@ void CDNS::XzCborOutputWriter::close()
 
 lzma_ret CDNS::XzCborOutputWriter::write_lzma(std::size_t in_size, lzma_action action)
 {
-    std::size_t size = in_size + in_size / 3 + 128;
+    // The callers loop until all input is consumed or the stream is finished, so a fixed-size chunk
+    // is enough (a stack buffer sized by in_size overflowed the stack for large writes)
+    (void) in_size;
+    constexpr std::size_t size = 16384;
     uint8_t buff[size];
 
     // Set output buffer
